@@ -81,6 +81,41 @@ fn check_label(name: &str, other: &str, n2: u32) -> Result<(), Failure> {
     if vn != vi {
         return Err(f("value-text:name-and-id-differ", format!("{tv_named} parses to {vn}, {tv_id} parses to {vi}")));
     }
+    // positional shorthand: an unlabelled field takes the id after the previous field's,
+    // whether that one was written as a name or as a number
+    if id < u32::MAX - 2 {
+        let (i1, i2) = (id as u64 + 1, id as u64 + 2);
+        let pairs = [
+            (format!("(record {{ {qn} = 1 : nat8; 2 : nat8; 3 : nat8 }})"), format!("(record {{ {id} = 1 : nat8; {i1} = 2 : nat8; {i2} = 3 : nat8 }})")),
+            (format!("(record {{ {id} = 1 : nat8; 2 : nat8 }})"), format!("(record {{ {i1} = 2 : nat8; {qn} = 1 : nat8 }})")),
+            (format!("(record {{ 5 : nat8; {qn} = 1 : nat8; 2 : nat8 }})"), format!("(record {{ 0 = 5 : nat8; {id} = 1 : nat8; {i1} = 2 : nat8 }})")),
+        ];
+        for (short, long) in &pairs {
+            match (g!("parse_idl_args", parse_idl_args(short)), g!("parse_idl_args", parse_idl_args(long))) {
+                (Ok(a), Ok(b)) => {
+                    if a != b {
+                        return Err(f("value-text:positional-field-after-label-misnumbered", format!("{short} parses to {a}, {long} parses to {b}")));
+                    }
+                }
+                (a, b) => {
+                    // id 0 collides with the leading positional field of the third pair
+                    if id == 0 || id as u64 + 1 == 0 {
+                        continue;
+                    }
+                    return Err(f("value-text:positional-shorthand-rejected", format!("{short} -> {:?}\n{long} -> {:?}", a.map(|x| x.to_string()).map_err(|e| e.to_string()), b.map(|x| x.to_string()).map_err(|e| e.to_string()))));
+                }
+            }
+        }
+        let (ts, tl) = (format!("record {{ {qn} : nat; text; bool }}"), format!("record {{ {i2} : bool; {id} : nat; {i1} : text }}"));
+        match (g!("parse type", parse_type(&ts)), g!("parse type", parse_type(&tl))) {
+            (Ok(a), Ok(b)) => {
+                if g!("equal", equal(&mut Gamma::new(), &TypeEnv::new(), &a, &b)).is_err() {
+                    return Err(f("type-text:positional-field-after-label-misnumbered", format!("{ts} is {a}, {tl} is {b}")));
+                }
+            }
+            (a, b) => return Err(f("type-text:positional-shorthand-rejected", format!("{ts} -> {a:?}\n{tl} -> {b:?}"))),
+        }
+    }
     // .did types with names vs ids are equal, fields ordered by id
     let tt_named = format!("record {{ {qn} : nat; 4294967294 : text }}");
     let tt_id = format!("record {{ 4294967294 : text; {id} : nat }}");
